@@ -1450,14 +1450,14 @@ def prop_oracle(c):
         doc = a[0]
         der = doc
         if op != "parse_asn1":
-            lines = doc.split(b"\n")
-            if len(lines) < 4 or lines[-1] != b"" or not lines[0].startswith(b"-----BEGIN "):
+            lines = [l.strip() for l in doc.strip().split(b"\n")]       # RFC 7468 (lax about outer whitespace)
+            if len(lines) < 3 or not (lines[0].startswith(b"-----BEGIN ") and lines[0].endswith(b"-----")):
+                return None
+            if lines[-1] != b"-----END " + lines[0][11:]:
                 return None
             try:
-                der = base64.b64decode(b"".join(lines[1:-2]), validate=True)
+                der = base64.b64decode(b"".join(lines[1:-1]), validate=True)
             except Exception:
-                return None
-            if doc != ref_pem(der, lines[0][11:-5]):
                 return None
         kind = None
         if len(der) == 118 and der == ref_der_priv(der[7:39], der[53:118]):
